@@ -405,6 +405,29 @@ func (s *Sim) noteCopy(in any) {
 				return
 			}
 		}
+		if rs.r.Kind == KUnary {
+			continue // a unary response is necessarily read after the handler returned it
+		}
+		for i, o := range rs.hSentObjs {
+			if o != in {
+				continue
+			}
+			n := 0
+			for _, ev := range s.hist {
+				if ev.RPC == rs.r.ID && ev.Side == 'h' && ev.Op == "send" {
+					if n == i {
+						if ev.RSeq != 0 {
+							s.viols = append(s.viols, Violation{Prop: "C06", RPC: rs.r.ID,
+								Sig:  fmt.Sprintf("C06|inproc|%s|read-after-return|handler-send", kindNames[rs.r.Kind]),
+								Text: fmt.Sprintf("rpc%d: the library copies the handler's message (handler send #%d, returned at seq %d) after that send returned", rs.r.ID, i, ev.RSeq)})
+						}
+						return
+					}
+					n++
+				}
+			}
+			return
+		}
 	}
 }
 
